@@ -210,6 +210,9 @@ def judge(run, cases, model, cres, exe, drv, limit):
                   sample={"desc": desc[:200], "model": m["set"], "impl": c and c.get("set")}, kind=cls)
         if m["set"].startswith("fault="):
             f = m["set"][6:]
+            if f == "fuel":
+                run.violation("model-fuel", "model ran out of fuel (its loops are proved to terminate: model bug)", replay_text(desc), no_input=True)
+                continue
             if f == "hang" or f == "str-oob":
                 # the proved theorem excludes str-oob; "hang" is the unsigned-j loop on totals >= 2^32: not run on C
                 if f == "str-oob":
